@@ -35,6 +35,8 @@ ASSUMPTIONS = [
 ]
 RULE = ('construction order: nreqs=1 attempted first for both classes (rejected, or grant = request), then a seed-dependent small size, '
         'exhaustive sizes ascending (plain) / descending (En), nreqs=1 again, random histories shuffled over sizes and variants; '
+        'wrapped: the arbiter inside 1-2 levels of GrantMonitor-style parents with 0-3 registers of their own, as the whole design and inside '
+        'generated tops with 7-16 arbiters, under every pass group (default, SimpleSim, Unroll, HeuTopo, Mamba2020); '
         'exhaustive: variant x nreqs x pointer position (steered through the ports: request only input p-1 with en high) x '
         'request vector x en x reset; random: histories of 40-300 cycles built from bursts (uniform / sparse / dense / all / '
         'none / one-hot / sticky requester / pair) with per-burst enable and reset probabilities, some starting before the '
